@@ -192,6 +192,16 @@ func bytesCodecUnmarshal(b []byte, out interface{}) error {
 	return symUnmarshal(b, out)
 }
 
+// bytesCodecUnmarshalReuse decodes the way encoding/json does for slices: into the target's existing
+// backing array when it has room. Harmless as long as every element is decoded into a fresh target.
+func bytesCodecUnmarshalReuse(b []byte, out interface{}) error {
+	if p, ok := out.(*[]byte); ok {
+		*p = append((*p)[:0], b...)
+		return nil
+	}
+	return symUnmarshal(b, out)
+}
+
 func symConfig(store Persist, cache NodeCache) *RemoteConfig {
 	return &RemoteConfig{
 		KeysLike:                symKey{},
